@@ -70,6 +70,26 @@ pub fn ll_grammar(rng: &mut Rng, i: usize) -> G {
             p1.push(t(8));
             G { names: vec![nt_name(0), nt_name(1)], start: 0, prods: vec![(0, vec![Sy::N(1), t(7)]), (1, p1), (1, p2)] }
         }
+        2 | 5 => {
+            // a random function from the strings of length k over a small alphabet to 2-3 productions:
+            // NA: NB; NB: P1 | P2 [| P3]; Pi: the strings mapped to i. The lookahead tries have many inner states with
+            // permuted / crossed assignments, which is what minimisation has to keep apart.
+            let (nsym, k) = if rng.chance(1, 2) { (2usize, rng.range(2, 3)) } else { (3usize, 2usize) };
+            let np = rng.range(2, 3);
+            let mut strs: Vec<Vec<u16>> = vec![vec![]];
+            for _ in 0..k { strs = strs.iter().flat_map(|s| (0..nsym).map(move |c| { let mut x = s.clone(); x.push(5 + c as u16); x })).collect(); }
+            let mut prods: Vec<(usize, Vec<Sy>)> = vec![(0, vec![Sy::N(1)])];
+            for p in 0..np { prods.push((1, vec![Sy::N(2 + p)])); }
+            let mut used = vec![false; np];
+            for s in &strs {
+                if rng.chance(1, 5) { continue; }
+                let p = rng.below(np);
+                used[p] = true;
+                prods.push((2 + p, s.iter().map(|x| t(*x)).collect()));
+            }
+            for p in 0..np { if !used[p] { prods.push((2 + p, vec![t(5 + nsym as u16), t(5)])); } }
+            G { names: (0..2 + np).map(nt_name).collect(), start: 0, prods }
+        }
         _ => {
             let d = Dials { max_nts: 4, max_terms: 3, max_alts: 3, max_rhs: 3, eps_pct: 20, nt_pct: 45 };
             random_clean(rng, &d, true)
